@@ -573,7 +573,7 @@ func (rec *c13CbRec) wait(d time.Duration) bool {
 
 // waitParked: true = the call is parked in its gate; false = it returned (or hung: reported).
 func (r *c13CbRun) waitParked(rec *c13CbRec, g *c13CbGate) bool {
-	deadline := time.Now().Add(3 * time.Second)
+	deadline := time.Now().Add(c13CbWatch)
 	for i := 0; ; i++ {
 		select {
 		case <-g.inside:
@@ -584,7 +584,7 @@ func (r *c13CbRun) waitParked(rec *c13CbRec, g *c13CbGate) bool {
 			return false
 		}
 		if time.Now().After(deadline) {
-			r.bad("%s %s neither reached its parking point nor returned within 3 s (hang)", rec.who, rec.call.String())
+			r.bad("%s %s neither reached its parking point nor returned within 5 s (hang)", rec.who, rec.call.String())
 			return false
 		}
 		if i < 2000 {
@@ -604,11 +604,11 @@ func (r *c13CbRun) check(rec *c13CbRec, when string) {
 	}
 }
 
-const c13CbWatch = 3 * time.Second
+const c13CbWatch = 5 * time.Second
 
 func (r *c13CbRun) writerQueued(w *c13CbRec) bool {
 	mu := r.se.GetLock()
-	deadline := time.Now().Add(2 * time.Second)
+	deadline := time.Now().Add(5 * time.Second)
 	for time.Now().Before(deadline) {
 		if w.isDone() {
 			return false
@@ -635,7 +635,7 @@ func (r *c13CbRun) postCheck() {
 		rec := r.spawn("after quiescence", q)
 		r.recs = r.recs[:len(r.recs)-1] // not part of the recorded overlap
 		if !rec.wait(c13CbWatch) {
-			r.bad("after quiescence %s did not return within 3 s (lock leaked / deadlock)", q.String())
+			r.bad("after quiescence %s did not return within 5 s (lock leaked / deadlock)", q.String())
 			return
 		}
 		want := c13CbDo(r.t, q)
@@ -686,7 +686,7 @@ func c13CbOne(cfg *c13CbCfg, first c13CbCall, ka int, mode string, second c13CbC
 			B := r.spawn("B", s)
 			B.want = c13CbDo(t, s)
 			if !B.wait(c13CbWatch) {
-				r.bad("reader %s did not return within 3 s while reader %s was parked in callback %s under the READ lock (reader blocked by reader / deadlock)", s.String(), first.String(), pk.whereA)
+				r.bad("reader %s did not return within 5 s while reader %s was parked in callback %s under the READ lock (reader blocked by reader / deadlock)", s.String(), first.String(), pk.whereA)
 				break
 			}
 			r.check(B, fmt.Sprintf("while %s was parked at its callback #%d (%s)", first.String(), ka, pk.whereA))
@@ -695,7 +695,7 @@ func c13CbOne(cfg *c13CbCfg, first c13CbCall, ka int, mode string, second c13CbC
 		if len(cfg.writers) > 0 && len(r.problems) == 0 {
 			W = r.spawn("W", cfg.writers[wi%len(cfg.writers)])
 			if !r.writerQueued(W) && !W.isDone() {
-				r.bad("writer %s was not seen waiting on the lock within 2 s", W.call.String())
+				r.bad("writer %s was not seen waiting on the lock within 5 s", W.call.String())
 			}
 			time.Sleep(2 * time.Millisecond)
 			if W.isDone() {
@@ -704,12 +704,12 @@ func c13CbOne(cfg *c13CbCfg, first c13CbCall, ka int, mode string, second c13CbC
 		}
 		pk.gA.release()
 		if !A.wait(c13CbWatch) {
-			r.bad("A %s did not return within 3 s after its release (deadlock)", first.String())
+			r.bad("A %s did not return within 5 s after its release (deadlock)", first.String())
 		}
 		r.check(A, fmt.Sprintf("after being parked at its callback #%d (%s)", ka, pk.whereA))
 		if W != nil {
 			if !W.wait(c13CbWatch) {
-				r.bad("writer %s did not return within 3 s after the parked reader was released (deadlock)", W.call.String())
+				r.bad("writer %s did not return within 5 s after the parked reader was released (deadlock)", W.call.String())
 				return
 			}
 			W.want = c13CbDo(t, W.call)
@@ -720,13 +720,14 @@ func c13CbOne(cfg *c13CbCfg, first c13CbCall, ka int, mode string, second c13CbC
 		B := r.spawn("B", second)
 		B.want = c13CbDo(t, second)
 		parkedB = r.waitParked(B, pk.gB)
+		atomic.StoreInt32(&pk.phase, 3) // from here on A's callbacks must not be taken for B's
 		pk.gA.release()
 		if !A.wait(c13CbWatch) {
-			r.bad("A %s did not return within 3 s after its release while B %s was parked (deadlock)", first.String(), second.String())
+			r.bad("A %s did not return within 5 s after its release while B %s was parked (deadlock)", first.String(), second.String())
 		}
 		pk.gB.release()
 		if !B.wait(c13CbWatch) {
-			r.bad("B %s did not return within 3 s after its release (deadlock)", second.String())
+			r.bad("B %s did not return within 5 s after its release (deadlock)", second.String())
 		}
 		atomic.StoreInt32(&pk.phase, 0)
 		r.check(A, fmt.Sprintf("(parked at its callback #%d (%s), finished while B was parked at its callback #%d (%s))", ka, pk.whereA, kb, pk.whereB))
@@ -746,14 +747,14 @@ func c13CbOne(cfg *c13CbCfg, first c13CbCall, ka int, mode string, second c13CbC
 		}
 		pk.gA.release()
 		if !A.wait(c13CbWatch) {
-			r.bad("writer %s did not return within 3 s after its release (deadlock)", first.String())
+			r.bad("writer %s did not return within 5 s after its release (deadlock)", first.String())
 			return
 		}
 		A.want = c13CbDo(t, first)
 		r.check(A, "after being parked in its write section")
 		for _, B := range rs {
 			if !B.wait(c13CbWatch) {
-				r.bad("reader %s did not return within 3 s after the parked writer finished (deadlock)", B.call.String())
+				r.bad("reader %s did not return within 5 s after the parked writer finished (deadlock)", B.call.String())
 				return
 			}
 			B.want = c13CbDo(t, B.call)
